@@ -49,7 +49,8 @@ def run(chk):
         "Decides the filter as a finite decision function: the match routine abstractly interpreted over {exclude} x {parallel} x {some filter matches}; filter-spec parsing "
         "(name / type: / tag:); match semantics of the three filter classes and of parallel elements (exists-leaf), with tags normalised to a list; every site that can shrink a "
         "parallel element is followed by an emptiness test whose empty edge removes the element; the processor only removes (no stores on tasks, no mutation while iterating); "
-        "consumer agreement (driver reports one entry per step; client floor of 1 for an emptied schedule)."
+        "consumer agreement (driver reports one entry per step; client floor of 1 for an emptied schedule); the removal of a leaf consults the leaf's completing role "
+        "(completed-by), the attribute being derived from the track reader's data flow."
     )
     chk.not_decided = "an end-to-end race on the filtered track."
     P = ldr.cls("TaskFilterTrackProcessor")
@@ -502,6 +503,95 @@ def run(chk):
 
     client_floor_rule(chk, "O11.4", drv)
 
+    # ---- O11.5 removing the completing leaf is handled ---------------------------------------------------------------------------------------------------------
+    chk.rule("O11.5", "the code that removes a leaf from a parallel element (the function holding the shrink site and everything it calls on the processor, the element or the leaf) "
+             "consults the leaf's completing role - the Task attribute the track reader derives from `completed-by` and the allocator turns into the join point's completing clients - "
+             "so that removing the completing leaf can be refused, transferred or extended to the siblings that only end with their parent", 1,
+             "a filter that removes the task named by completed-by but keeps a sibling without an end of its own (warmup-time-period only, infinite parameter source): nothing ever "
+             "completes the element, the filtered race hangs at that step and reports nothing")
+    role = completing_role(repo, ldr, tinit)
+    # the allocator really keys the completion of the element on this attribute (otherwise the role found above is not the one that ends the element)
+    if not any(isinstance(n, ast.Attribute) and n.attr == role and isinstance(n.ctx, ast.Load) for n in ast.walk(drv.tree)):
+        raise AnchorMissing(f"driver never reads the completing role `{role}` of a task")
+    # candidate callees by (unique-enough) name: methods of the processor, of the parallel element and of the leaf class, and the loader's module-level functions
+    cands = {}
+    for mod_, cls_ in ((ldr, P), (trk, PA), (trk, TK)):
+        for nm, m_ in mod_.methods(cls_).items():
+            if not (nm.startswith("__") and nm.endswith("__")):
+                cands.setdefault(nm, []).append(m_)
+    for n in ldr.tree.body:
+        if isinstance(n, source.FUNC_TYPES):
+            cands.setdefault(n.name, []).append(n)
+
+    def closure(root):
+        seen, todo = [], [root]
+        while todo:
+            f_ = todo.pop()
+            if any(f_ is s_ for s_ in seen):
+                continue
+            seen.append(f_)
+            for x in ast.walk(f_):
+                if isinstance(x, ast.Call) and last_attr(x.func) in cands:
+                    todo.extend(cands[last_attr(x.func)])
+        return seen
+
+    def role_refs(f_):
+        out = []
+        for x in ast.walk(f_):
+            named = (isinstance(x, ast.Attribute) and x.attr == role) or (
+                isinstance(x, ast.Call) and dotted(x.func) in ("getattr", "hasattr", "setattr") and len(x.args) >= 2 and source.is_const(x.args[1], role))
+            if named and x is not f_ and not is_logging_stmt(source.enclosing_stmt(x)):
+                out.append(x)
+        return out
+
+    hook_slice = closure(oa)
+    for c in shrink:
+        fn = source.enclosing_func(c)
+        sl = closure(fn)
+        refs = [r_ for f_ in sl for r_ in role_refs(f_)]
+        root = oa if any(fn is f_ for f_ in hook_slice) else fn  # the finding is keyed by the processor hook that performs the removal, wherever a helper puts the call itself
+        chk.ob("O11.5", f"{source.qualname(c)}: removing a leaf of {u(c.func.value)} consults the leaf's completing role `{role}`", bool(refs), refs[0] if refs else c,
+               (f"{len(refs)} reference(s), first in {source.qualname(refs[0])}" if refs else
+                f"no reference to `{role}` in {', '.join(sorted(source.qualname(f_) for f_ in sl))}: the leaf named by completed-by is removed like any other leaf and nothing else happens - "
+                "the join point of the element gets no completing client, remaining siblings that only end with their parent never end"),
+               key=f"{_L}:{source.qualname(root)}:completing-leaf-removed")
+
+
+def completing_role(repo, ldr, tinit):
+    """Name of the Task attribute that marks THE task completing its parallel element, derived by data flow: a construction of Task in the loader passes, for some constructor
+    parameter K, a comparison `<name of the task> == <p>` where <p> is a parameter of the constructing function that one of its callers feeds from the value read under the
+    track key "completed-by"; Task.__init__ stores K in `self.<attr>`."""
+    for call in [c for c in ast.walk(ldr.tree) if isinstance(c, ast.Call) and last_attr(c.func) == "Task"]:
+        fn = source.enclosing_func(call)
+        if fn is None:
+            continue
+        fparams = set(params_of(fn)) | {a.arg for a in fn.args.kwonlyargs}
+        defs = local_defs(fn)
+        callers = [c for c in package_calls(repo, fn.name) if c is not call]
+        for k_, val in source.bind_args(call, tinit).items():
+            v = source.inline_node(val, defs)
+            if not (isinstance(v, ast.Compare) and len(v.ops) == 1 and isinstance(v.ops[0], ast.Eq)):
+                continue
+            sides = [v.left, v.comparators[0]]
+            carrier = [s_ for s_ in sides if isinstance(s_, ast.Name) and s_.id in fparams]
+            other = [s_ for s_ in sides if not (isinstance(s_, ast.Name) and s_.id in fparams)]
+            if len(carrier) != 1 or len(other) != 1 or isinstance(other[0], ast.Constant):
+                continue  # `<p> == "any"` is the any-task-completes role, not THE completing task
+            fed = False
+            for cc in callers:
+                cf = source.enclosing_func(cc)
+                arg = source.bind_args(cc, fn).get(carrier[0].id)
+                if arg is None or cf is None:
+                    continue
+                av = source.inline_node(arg, local_defs(cf))
+                fed = fed or any(source.is_const(x, "completed-by") for x in ast.walk(av))
+            if not fed:
+                continue
+            for n in walk_body(tinit):
+                if isinstance(n, ast.Assign) and len(n.targets) == 1 and is_self_attr(n.targets[0]) and any(isinstance(x, ast.Name) and x.id == k_ for x in ast.walk(n.value)):
+                    return n.targets[0].attr
+    raise AnchorMissing("the Task attribute set from `<task name> == <completed-by>` (completing role) could not be derived from the track reader / Task.__init__")
+
 
 from sa.selftest import V  # noqa: E402
 
@@ -532,4 +622,12 @@ VARIANTS = [
     V("match loop as any()", "keep", _L, "        for f in self.filters:\n            if task.matches(f):\n                if hasattr(task, \"tasks\") and self.exclude:\n                    return False\n                return self.exclude\n        return not self.exclude", "        if any(task.matches(f) for f in self.filters):\n            if self.exclude and hasattr(task, \"tasks\"):\n                return False\n            return self.exclude\n        return not self.exclude"),
     V("seed C02-m7: max with default 1 (the default only covers the EMPTY schedule, not a schedule of empty elements)", "break", _D, "        max_clients = 1\n        for task in self.schedule:\n            max_clients = max(max_clients, task.clients)\n        return max_clients", "        return max((task.clients for task in self.schedule), default=1)", "O11.4"),
     V("explicit floor around the max", "keep", _D, "        max_clients = 1\n        for task in self.schedule:\n            max_clients = max(max_clients, task.clients)\n        return max_clients", "        return max(1, max((task.clients for task in self.schedule), default=0))"),
+    # O11.5 (F53 is a KNOWN finding at TaskFilterTrackProcessor.on_after_load_track: the battery is run with that entry listed). Any OTHER site that removes leaves without consulting
+    # the completing role is still reported; respellings of the reader / of Task.__init__ keep the derived role (and with it the verdict and its key).
+    V("a second processor removes leaves of a parallel element without consulting the completing role", "break", _L,
+      "                if isinstance(task, Parallel):\n                    challenge.serverless_info.append(f\"Treating parallel task in challenge [{challenge}] as public.\")\n",
+      "                if isinstance(task, Parallel):\n                    for leaf in [l for l in task if self._is_filtered_task(l.operation)]:\n                        task.remove_task(leaf)\n", "O11.5"),
+    [V("completing role computed into a local first, comparison flipped", "keep", _L, "            completes_parent=(task_name == completed_by_name),\n", "            completes_parent=is_completing,\n"),
+     V("(second edit of the same variant: the local)", "keep", _L, "        task = track.Task(\n            name=task_name,", "        is_completing = completed_by_name == task_name\n        task = track.Task(\n            name=task_name,")],
+    V("Task stores the completing role through bool()", "keep", _T, "        self.completes_parent = completes_parent\n", "        self.completes_parent = bool(completes_parent)\n"),
 ]
